@@ -126,15 +126,20 @@ func (bs *baseServer) Init() {
 // Compute the pathname of the requests that are handled by the server
 func (bs *baseServer) ComputePath(options config.AttachOptionsInterface) string {
 	path := "/engine.io"
+	addTrailingSlash := true
 
 	if options != nil {
 		if options.GetRawPath() != nil {
 			path = strings.TrimRight(options.Path(), "/")
 		}
-		if options.GetRawAddTrailingSlash() == nil || options.AddTrailingSlash() {
-			// normalize path
-			path += "/"
+		if options.GetRawAddTrailingSlash() != nil {
+			addTrailingSlash = options.AddTrailingSlash()
 		}
+	}
+
+	if addTrailingSlash {
+		// normalize path
+		path += "/"
 	}
 
 	return path
